@@ -164,10 +164,10 @@ pub fn explore<M: Machine>(m: &M, lim: &Limits, acc: &mut Acc) {
         let results: Vec<Out<M::S, M::Op>> = std::thread::scope(|sc| {
             // watchdog: a worker that stays inside one step for `hang_secs` seconds has met a call that does not
             // return; report it with the history that leads there (recs is not modified while workers run)
-            sc.spawn(move || {
-                let mut seen: Vec<(u64, u64)> = vec![(0, 0); slots.len()];
+            let wd = sc.spawn(move || {
+                let mut seen: Vec<(u64, Instant)> = vec![(0, Instant::now()); slots.len()];
                 loop {
-                    std::thread::sleep(Duration::from_millis(500));
+                    std::thread::park_timeout(Duration::from_millis(500));
                     if level_done.load(std::sync::atomic::Ordering::Relaxed) {
                         return;
                     }
@@ -176,12 +176,10 @@ pub fn explore<M: Machine>(m: &M, lim: &Limits, acc: &mut Acc) {
                         if b == 0 || b == u64::MAX {
                             continue; // not started / finished
                         }
-                        if seen[w].0 == b {
-                            seen[w].1 += 1;
-                        } else {
-                            seen[w] = (b, 0);
+                        if seen[w].0 != b {
+                            seen[w] = (b, Instant::now());
                         }
-                        if seen[w].1 >= hang_secs * 2 {
+                        if seen[w].1.elapsed() >= Duration::from_secs(hang_secs) {
                             if let Some((pid, op)) = cur.lock().unwrap().clone() {
                                 let (init, mut ops) = path_of(recs_ro, pid);
                                 ops.push(op);
@@ -244,6 +242,7 @@ pub fn explore<M: Machine>(m: &M, lim: &Limits, acc: &mut Acc) {
                 .collect();
             let r = hs.into_iter().map(|h| h.join().expect("explorer worker panicked (harness bug)")).collect();
             level_done.store(true, std::sync::atomic::Ordering::Relaxed);
+            wd.thread().unpark(); // do not wait out the watchdog's sleep at the end of every level
             r
         });
         if aborted.load(std::sync::atomic::Ordering::Relaxed) {
